@@ -551,6 +551,22 @@ pub fn run(args: &Args) -> i32 {
         let doc = Doc { text, target, family: "huge" };
         render_all(&doc, &format!("h{hi}"), &[5, 64], &mut rng, &mut w, &mut stats, true);
     }
+    // long inputs whose lines are all different (the reader keeps the most recent 3 KiB only: what it shows must be the lines
+    // around the error, not some other part of the stream)
+    for li in 0..(if n > 1000 { 12 } else { 4 }) {
+        let total = 300 + rng.below(300);
+        let bad_at = match li % 4 { 0 => 5, 1 => total / 2, 2 => total - 3, _ => rng.below(total) };
+        let mut text = String::new();
+        for i in 0..total {
+            if i == bad_at {
+                text.push_str(&format!("bad{i}: not-a-number-{}\n", rng.below(100000)));
+            } else {
+                text.push_str(&format!("key{i}: {}{}\n", i * 7 + 1, if i % 9 == 0 { format!("   # note {} é", rng.below(1000)) } else { String::new() }));
+            }
+        }
+        let doc = Doc { text, target: Target::Map, family: "long-distinct" };
+        render_all(&doc, &format!("ld{li}"), &[5, 64], &mut rng, &mut w, &mut stats, true);
+    }
     for i in 0..n {
         let doc = gen_doc(&mut rng, i);
         if stats.samples.len() < 4 && doc.text.len() < 200 {
